@@ -196,11 +196,16 @@ static void case_random(vh_rng* r, long index) {
       for (size_t i = 0; i < wl; i++) { word[i] = (char)('a' + vh_below(r, 26)); }
       word[wl] = 0;
       if (wl == 0) { vh_count("formatted_writes_with_an_empty_text_field"); }
-      char txt[96]; int tl = snprintf(txt, sizeof txt, "<%" PRId64 "|%s>", v, word);
-      snprintf(opd, sizeof opd, "print_to(\"<%%i|%%s>\", %" PRId64 ", \"%s\")", v, word);
+      /* several record layouts, some with literal percent signs followed by ordinary words */
+      static const char* CFMT[] = { "<%i|%s>", "%i%% of %s;", "[%i%% done, %s spoiled]\n", "%i%%%s|", "100%% sure: %i/%s\n" };
+      static const char* LFMT[] = { "<%" PRId64 "|%s>", "%" PRId64 "%% of %s;", "[%" PRId64 "%% done, %s spoiled]\n", "%" PRId64 "%%%s|", "100%% sure: %" PRId64 "/%s\n" };
+      int fk = (int)vh_below(r, 5);
+      if (fk > 0) { vh_count("formatted_writes_with_a_literal_percent"); }
+      char txt[128]; int tl = snprintf(txt, sizeof txt, LFMT[fk], v, word);
+      snprintf(opd, sizeof opd, "print_to(layout %d, %" PRId64 ", \"%s\")", fk, v, word);
       vh_op("%s", opd);
       int ret = -1;
-      VH_CATCH(ret = print_to(f, 0, "<%i|%s>", $I(v), $S(word)), exc);
+      VH_CATCH(ret = print_to(f, 0, CFMT[fk], $I(v), $S(word)), exc);
       vh_eval();
       if (exc) { vh_violation("C20:write:print_to-raised", "%s raised %s", opd, vh_exc_name(exc)); break; }
       if (ret != tl) { vh_violation("C20:write:print_to-return", "print_to returned %d for %d characters", ret, tl); }
